@@ -111,6 +111,15 @@ def occCard : Occ → Nat → Bool
   | .star, _ => true
   | .plus, n => 1 ≤ n
 
+/-- XPath 3.1 §2.5.5.3 / §2.5.5.5 with §3.3.2.1 (name tests): an ElementName / AttributeName in a kind test is a
+lexical QName expanded with the statically known namespaces; "an unprefixed QName, when used as a name test on an
+axis whose principal node kind is element, has the namespace URI of the default element/type namespace; otherwise
+it has no namespace URI".  Names are numbers `100 * (prefix | namespace) + local` (see the model). -/
+def specResolveName (dflt p q : Nat) (isAttr : Bool) (lex : Nat) : Nat :=
+  if lex / 100 = 0 then (if isAttr then lex % 100 else 100 * dflt + lex % 100)
+  else if lex / 100 = 1 then 100 * p + lex % 100
+  else 100 * q + lex % 100
+
 /-- element / attribute name test (§2.5.5.3, §2.5.5.5): no argument and `*` match every name -/
 def specName : NameTest → Nat → Bool
   | .none, _ => true
